@@ -439,3 +439,86 @@ func firstDiff(a, b string) string {
 	}
 	return fmt.Sprintf("at byte %d: %q vs %q", i, cut(a), cut(b))
 }
+
+// CanonLite renders a response value canonically without fmt, encoding/json or
+// anything else that goes through a sync.Pool or a shared cache: under the race
+// detector those create happens-before edges between tasks (and sync.Pool drops
+// items at random there), which would hide races and break replay.
+func CanonLite(v interface{}) string {
+	var b strings.Builder
+	canonLite(&b, v)
+	return b.String()
+}
+
+func canonLite(b *strings.Builder, v interface{}) {
+	switch tv := v.(type) {
+	case nil:
+		b.WriteString("null")
+	case map[string]interface{}:
+		keys := make([]string, 0, len(tv))
+		for k := range tv {
+			keys = append(keys, k)
+		}
+		sort.Strings(keys)
+		b.WriteByte('{')
+		for i, k := range keys {
+			if i > 0 {
+				b.WriteByte(',')
+			}
+			b.WriteString(strconvQuote(k))
+			b.WriteByte(':')
+			canonLite(b, tv[k])
+		}
+		b.WriteByte('}')
+	case []interface{}:
+		b.WriteByte('[')
+		for i, x := range tv {
+			if i > 0 {
+				b.WriteByte(',')
+			}
+			canonLite(b, x)
+		}
+		b.WriteByte(']')
+	case string:
+		b.WriteString(strconvQuote(tv))
+	case ggql.Symbol:
+		b.WriteString(strconvQuote("sym:" + string(tv)))
+	case bool:
+		if tv {
+			b.WriteString("true")
+		} else {
+			b.WriteString("false")
+		}
+	case int:
+		b.WriteString(strconvItoa(int64(tv)))
+	case int32:
+		b.WriteString(strconvItoa(int64(tv)))
+	case int64:
+		b.WriteString(strconvItoa(tv))
+	case float64:
+		b.WriteString(strconvFloat(tv))
+	case float32:
+		b.WriteString(strconvFloat(float64(tv)))
+	case error:
+		b.WriteString(strconvQuote("error:" + tv.Error()))
+	case *ggql.Subscription:
+		b.WriteString(`"<subscription>"`)
+	default:
+		rv := reflect.ValueOf(v)
+		switch rv.Kind() {
+		case reflect.Slice, reflect.Array:
+			b.WriteByte('[')
+			for i := 0; i < rv.Len(); i++ {
+				if i > 0 {
+					b.WriteByte(',')
+				}
+				canonLite(b, rv.Index(i).Interface())
+			}
+			b.WriteByte(']')
+		case reflect.Map:
+			b.WriteString(`"<map>"`)
+		default:
+			b.WriteString(strconvQuote("<" + rv.Type().String() + ">"))
+		}
+	}
+}
